@@ -23,7 +23,9 @@ FS_EXTERNALS = {
     "os.rename", "os.remove", "os.makedirs", "os.mkdir", "shutil.copy", "shutil.copy2", "shutil.move", "shutil.rmtree",
     "method:open", "method:exists", "method:is_file", "method:is_dir", "method:mkdir", "method:touch", "method:write_text",
     "method:read_text", "method:unlink", "method:rename", "method:iterdir", "method:glob", "method:stat",
-    "method:read_bytes", "method:write_bytes", "fileseq.findSequencesOnDisk",
+    "method:read_bytes", "method:write_bytes", "fileseq.findSequencesOnDisk", "method:resolve", "method:absolute",
+    "method:expanduser", "method:samefile", "method:is_symlink", "method:readlink", "os.path.realpath", "os.path.abspath",
+    "os.getcwd", "os.path.expanduser", "os.readlink", "os.path.islink", "pathlib.Path.cwd", "pathlib.Path.home",
 }
 WHOLE_OK = {"str", "repr", "hash", "frozenset_items", "json.dumps", "pickle.dumps", "functools._make_key", "_make_key"}
 
